@@ -261,10 +261,36 @@ class Fn:
         self.aggtypes = {}
         self.fnptrs = set()
         self.fnalias_map = {}
+        self.ktype = {}            # env key -> Lean type text (for the parameters of loop definitions)
+        self.ret_types = []        # return type (T or None) of the function whose body is being translated (innermost inlined call last)
+        self.aux_defs = []         # text of auxiliary definitions (loops as recursive functions)
+        self.nloops = 0
+        self.recursive_loops = False
+        self.uses_fuel = False
         self.trace = []
         self.lets, self.n = [], 0
         self.uses_mem = False
         self.done_fns = done or {}       # name -> signature info of already translated functions
+
+    def kt(self, key, t):
+        """record the Lean type of an environment key (T or text)"""
+        self.ktype[key] = t if isinstance(t, str) else f'BitVec {t.w}'
+
+    def key_type(self, key):
+        if key == '$mem':
+            return 'Mem'
+        if key in ('$ub', '$exh', '$done', '$exit', '$path'):
+            return 'Bool'
+        if key == '$ret':
+            t = self.ret_types[-1] if self.ret_types else None
+            return None if t is None else f'BitVec {t.w}'
+        if key in self.ktype:
+            return self.ktype[key]
+        if key in self.ftype:
+            return f'BitVec {self.ftype[key].w}'
+        if key.startswith('@&'):
+            return f'BitVec {PTR}'
+        return None
 
     def fresh(self, base):
         self.n += 1
@@ -843,6 +869,10 @@ class Fn:
         for gk in [k_ for k_ in env if k_.startswith('@')]:
             cenv[gk] = env[gk]
         saved = (self.ftype, self.ptype, self.partial, self.in_loop, getattr(self, 'stack', ()))
+        saved_ktype = self.ktype
+        self.ktype = dict(self.ktype)
+        rq_ = fdecl['type']['qualType'].split('(')[0].strip()
+        self.ret_types.append(None if self.tu.resolve(rq_) == 'void' else self.tu.vtype_q(rq_))
         self.ftype, self.ptype, self.partial, self.in_loop = dict(self.ftype), dict(self.ptype), dict(self.partial), 0
         self.stack = saved[4] + (fname,)
         saved_alias = dict(self.fnalias_map)
@@ -851,8 +881,14 @@ class Fn:
         for p, v in binds:
             cenv[p['name']] = v
             self.ptype[p['name']] = p['type'].get('desugaredQualType', p['type']['qualType'])
+            try:
+                self.kt(p['name'], self.tu.vtype(p))
+            except Unsupported:
+                pass
         for pn, cv in outs_alias:
             cenv['*' + pn] = env[cv]
+            if saved_ktype.get(cv):
+                self.ktype['*' + pn] = saved_ktype[cv]
             back.append((cv, '*' + pn))
         for p, q, rec, cn in records:
             self.ptype[p['name']] = q
@@ -864,6 +900,8 @@ class Fn:
         body = [c for c in fdecl['inner'] if c['kind'] == 'CompoundStmt'][0]
         self.ex(body, cenv)
         self.ftype, self.ptype, self.partial, self.in_loop, self.stack = saved
+        self.ktype = saved_ktype
+        self.ret_types.pop()
         self.fnalias_map = saved_alias
         self.depth -= 1
         for ck, pk in back:
@@ -934,6 +972,133 @@ class Fn:
         return f'(decide ({self.ev(c, env)} != {lit(0, self.tu.vtype(c).w)}))'
 
     def loop(self, n, env):
+        if self.recursive_loops:
+            snap = (list(self.lets), self.n, dict(self.nsite), list(self.extra_params), list(self.extra_outs), list(self.trace),
+                    dict(self.tags), self.uses_mem, dict(env), self.in_loop, list(self.aux_defs), self.nloops, dict(self.ktype))
+            try:
+                return self.loop_rec(n, env)
+            except Unsupported as e:
+                # not expressible as a recursive definition (calls of the environment inside the loop, untyped state): unroll it
+                (self.lets, self.n, self.nsite, self.extra_params, self.extra_outs, self.trace, self.tags, self.uses_mem, env0,
+                 self.in_loop, self.aux_defs, self.nloops, self.ktype) = snap
+                env.clear(); env.update(env0)
+        return self.loop_unrolled(n, env)
+
+    @staticmethod
+    def san(key):
+        return re.sub(r'[^A-Za-z0-9_]', '_', key.replace('->', '_').replace('@&', 'addr_').replace('@', 'g_').replace('*', 'deref_').replace('$', ''))
+
+    def loop_rec(self, n, env):
+        """a loop as a recursive definition `<fn>.loop<k>` with a fuel argument: its parameters are the values of the variables the loop
+        reads (read-only) and of those it assigns (state); one unfolding is one evaluation of the condition, the body and the increment"""
+        k = n['kind']
+        inner = n['inner']
+        if k == 'ForStmt':
+            init, _, cond, inc, body = inner
+            if init and init.get('kind'):
+                self.ex(init, env)
+        elif k == 'WhileStmt':
+            cond, body, inc = inner[0], inner[1], None
+        else:
+            raise Unsupported('do-while as a recursive loop')
+        fname = self.decl['name']
+        sites0 = (dict(self.nsite), len(self.extra_params), len(self.extra_outs), len(self.trace))
+
+        def one_iteration(e):
+            if cond and cond.get('kind'):
+                c = self.cond_bool(cond, e)
+                e['$exit'] = self.bind('exit', f'(!{c})')
+            self.in_loop += 1
+            self.ex(body, e)
+            if inc and inc.get('kind'):
+                self.ev(inc, e)
+            self.in_loop -= 1
+
+        # pass 1: which variables does one iteration assign?
+        keys = [k_ for k_ in env if env[k_] not in (UNINIT, None) or k_ == '$ret']
+        snap = (list(self.lets), self.n, dict(self.ktype), list(self.aux_defs), self.nloops)
+        e1 = dict(env); e1['$exit'] = 'false'; e1['$done'] = 'false' if env['$done'] == 'false' else env['$done']
+        one_iteration(e1)
+        if (dict(self.nsite), len(self.extra_params), len(self.extra_outs), len(self.trace)) != sites0:
+            raise Unsupported('call of the environment or va_arg inside a loop')
+        state = [k_ for k_ in keys if k_ not in ('$exit', '$path') and e1.get(k_) != env.get(k_)]
+        self.lets, self.n, self.ktype, self.aux_defs, self.nloops = snap
+        if env['$done'] != 'false':
+            raise Unsupported('loop after a conditional return')
+        # pass 2: the iteration over parameter names
+        self.nloops += 1
+        lname = f'{fname}.loop{self.nloops}'
+        pname = {k_: ('s_' if k_ in state else 'r_') + self.san(k_) for k_ in keys}
+        e2 = dict(env)
+        for k_ in keys:
+            if k_ in ('$exit', '$path', '$done'):
+                continue
+            if k_ == '$ret' and env['$ret'] is None and '$ret' not in state:
+                continue
+            e2[k_] = pname[k_]
+        e2['$exit'] = 'false'; e2['$done'] = 'false'; e2['$path'] = 'true'
+        outer_lets, outer_n = self.lets, self.n
+        self.lets, self.n = [], 0            # names inside the loop definition are local to it
+        one_iteration(e2)
+        body_lets = self.lets
+        self.lets, self.n = outer_lets, outer_n
+        text = ' '.join(e for _, e in body_lets) + ' ' + ' '.join(str(e2[k_]) for k_ in state) + f' {e2["$done"]} {e2["$exit"]}'
+        toks = set(re.findall(r"[A-Za-z_][A-Za-z0-9_']*", text))
+        ro = [k_ for k_ in keys if k_ not in state and k_ not in ('$exit', '$path', '$done') and pname[k_] in toks]
+        types = {}
+        for k_ in ro + state:
+            t = self.key_type(k_)
+            if t is None:
+                raise Unsupported('loop state of unknown type: ' + k_)
+            types[k_] = t
+        if '$done' in state:
+            pass
+        flds = [(self.san(k_), types[k_]) for k_ in state]
+        out = [f'/-- state after the loop {self.nloops} of `{fname}` -/', f'structure {lname}.St where']
+        out += [f'  {f} : {t}' for f, t in flds] + ['  exh : Bool', '']
+        ropar = ' '.join(f'({pname[k_]} : {types[k_]})' for k_ in ro)
+        stpar = ' '.join(f'({pname[k_]} : {types[k_]})' for k_ in state)
+        out += [f'/-- loop {self.nloops} of `{fname}`: one unfolding = condition, body, increment; `fuel` bounds the number of iterations (`exh` when it runs out) -/',
+                f'def {lname} {ropar} (fuel : Nat) {stpar} : {lname}.St :=', '  match fuel with',
+                '  | 0 => { ' + ', '.join([f'{self.san(k_)} := {pname[k_]}' for k_ in state] + ['exh := true']) + ' }',
+                '  | fuel + 1 =>']
+        for n_, e in body_lets:
+            out.append(f'    let {n_} := {e}')
+        stop = self.dead(e2)
+        res = '{ ' + ', '.join([f'{self.san(k_)} := {e2[k_]}' for k_ in state] + ['exh := false']) + ' }'
+        rec = f'{lname} ' + ' '.join(pname[k_] for k_ in ro) + ' fuel ' + ' '.join(str(e2[k_]) for k_ in state)
+        out.append(f'    if {stop} then {res} else {rec}')
+        out.append('')
+        # the same loop inlined into another function of the unit (list_remove inlines list_contains) reuses the first definition
+        body_key = '\n'.join(l_ for l_ in out if not l_.startswith('/--')).replace(lname, '<L>')
+        cache = self.tu.__dict__.setdefault('loop_cache', {})
+        if body_key in cache:
+            lname = cache[body_key]
+            self.nloops -= 1
+        else:
+            cache[body_key] = lname
+            self.aux_defs.append('\n'.join(out))
+        # the call
+        self.uses_fuel = True
+        init_ret = env['$ret'] if env['$ret'] is not None else (lit(0, self.ret_types[-1].w) if self.ret_types and self.ret_types[-1] is not None else None)
+        args = []
+        for k_ in ro:
+            args.append(str(env[k_]))
+        sargs = []
+        for k_ in state:
+            sargs.append(str(init_ret) if k_ == '$ret' else str(env[k_]))
+        r = self.bind('loop', f'({lname} ' + ' '.join(args + ['fuel'] + sargs) + ')')
+        dd = self.dead(env)
+        for k_ in state:
+            v = f'{r}.{self.san(k_)}'
+            if dd != 'false' and env.get(k_) not in (UNINIT, None):
+                v = f'(if {dd} then {env[k_]} else {v})'
+            env[k_] = v if k_ not in ('$mem',) else self.bind('mem', v)
+        if '$mem' in state:
+            self.uses_mem = True
+        self.flag(env, '$exh', f'{r}.exh')
+
+    def loop_unrolled(self, n, env):
         k = n['kind']
         inner = n['inner']
         if k == 'ForStmt':
@@ -1062,7 +1227,7 @@ class Fn:
                         env[key] = pn
                         self.aggtypes[d['name']] = dq
                     continue
-                self.tu.vtype(d)
+                self.kt(d['name'], self.tu.vtype(d))
                 init = [c for c in d.get('inner', []) if not c['kind'].endswith('Comment')]
                 if init:
                     env[d['name']] = UNINIT
@@ -1160,6 +1325,7 @@ class Fn:
                         ft = tu.vtype_q(fq)
                         params.append((f'{g}_{f}', ft.w))
                         env[f'@{g}.{f}'] = f'{g}_{f}'
+                        self.kt(f'@{g}.{f}', ft)
                         outs.append((f'@{g}.{f}', f'{g}_{f}', ft.w))
             elif self.is_aggregate(gq):
                 params.append((g, PTR))
@@ -1168,6 +1334,7 @@ class Fn:
                 gt = tu.vtype_q(gq)
                 params.append((g, gt.w))
                 env['@' + g] = g
+                self.kt('@' + g, gt)
                 outs.append(('@' + g, g, gt.w))
         for p in [c for c in d['inner'] if c['kind'] == 'ParmVarDecl']:
             q = p['type'].get('desugaredQualType', p['type']['qualType'])
@@ -1178,6 +1345,7 @@ class Fn:
                 # a function pointer: an opaque 64-bit value; a call through it is a call of the environment named after the parameter
                 params.append((p['name'], PTR))
                 env[p['name']] = p['name']
+                self.kt(p['name'], f'BitVec {PTR}')
                 self.fnptrs.add(p['name'])
                 sig['params'].append(('scalar', p['name'], None))
                 continue
@@ -1200,16 +1368,19 @@ class Fn:
                 w = pt.esz * 8
                 params.append((f'{p["name"]}_in', w))
                 env['*' + p['name']] = f'{p["name"]}_in'
+                self.kt('*' + p['name'], f'BitVec {w}')
                 outs.append(('*' + p['name'], f'deref_{p["name"]}', w))
                 sig['params'].append(('scalar', p['name'], None))
             else:
                 params.append((p['name'], pt.w))
                 env[p['name']] = p['name']
+                self.kt(p['name'], pt)
                 sig['params'].append(('scalar', p['name'], None))
         body = [c for c in d['inner'] if c['kind'] == 'CompoundStmt'][0]
-        self.ex(body, env)
         rq = d['type']['qualType'].split('(')[0].strip()
         rett = None if tu.resolve(rq) == 'void' else tu.vtype_q(rq)
+        self.ret_types.append(rett)
+        self.ex(body, env)
         sig['mem'], sig['ret'] = self.uses_mem, rett is not None
         fields = []
         if rett is not None:
@@ -1230,8 +1401,9 @@ class Fn:
         out += [f'/-- result of the generated `{name}` -/', f'structure {name}.Out where']
         out += [f'  {f} : {t}' for f, t, _ in fields]
         out.append('')
-        sigtxt = ' '.join(f'({n_} : BitVec {w})' for n_, w in params) + (' (mem : Mem)' if self.uses_mem else '')
-        out += [f'/-- generated from `{name}` (sequential meaning; loops unrolled {self.fuel}×) -/', f'def {name} {sigtxt} : {name}.Out :=']
+        sigtxt = ('(fuel : Nat) ' if self.uses_fuel else '') + ' '.join(f'({n_} : BitVec {w})' for n_, w in params) + (' (mem : Mem)' if self.uses_mem else '')
+        out = self.aux_defs + out
+        out += [f'/-- generated from `{name}` (sequential meaning; loops ' + ('are recursive definitions with a fuel argument' if self.uses_fuel else f'unrolled {self.fuel}×') + ') -/', f'def {name} {sigtxt} : {name}.Out :=']
         for n_, e in self.lets:
             out.append(f'  let {n_} := {e}')
         out.append('  { ' + ', '.join(f'{f} := {v}' for f, _, v in fields) + ' }')
@@ -1340,7 +1512,7 @@ def load(path, extra):
     return tu
 
 
-def generate(path, fns, namespace, extra=(), fuel=2, fuels=None, externs=(), inmem=()):
+def generate(path, fns, namespace, extra=(), fuel=2, fuels=None, externs=(), inmem=(), recursive_loops=False):
     """Lean source text for the listed functions of one C file, in the order given (callees first)."""
     tu = load(path, list(extra))
     tu.inmem = set(inmem)
@@ -1350,7 +1522,9 @@ def generate(path, fns, namespace, extra=(), fuel=2, fuels=None, externs=(), inm
     for fn in fns:
         if fn not in tu.fns:
             raise Unsupported(f'function {fn} not found in {path}')
-        text, sig = Fn(tu, tu.fns[fn], (fuels or {}).get(fn, fuel), done, externs).translate()
+        f_ = Fn(tu, tu.fns[fn], (fuels or {}).get(fn, fuel), done, externs)
+        f_.recursive_loops = recursive_loops
+        text, sig = f_.translate()
         done[fn] = sig
         out.append(text)
         out.append('')
